@@ -1,4 +1,4 @@
-CONSTANTS DEPTH = 2  N = 3  D = 2  K = 2  TMAX = 9  FIXTO = TRUE
+CONSTANTS DEPTH = 2  N = 3  D = 2  K = 2  TMAX = 9  BLIND = {}  FIXTO = TRUE
 SPECIFICATION Spec
 INVARIANTS BoundedDelay ArrivedWasFed
 CHECK_DEADLOCK FALSE
